@@ -782,7 +782,10 @@ class Interp:
             if g == FALSE:
                 continue
             if isinstance(v, Alt):
-                flat += [(f_and([g, g2]), v2) for g2, v2 in v.options]
+                for g2, v2 in v.options:
+                    gg = self.simp(f_and([g, g2])) if g != TRUE else g2
+                    if gg != FALSE:
+                        flat.append((gg if gg == TRUE else f_and([g, g2]), v2))
             else:
                 flat.append((g, v))
         if not flat:
@@ -865,6 +868,11 @@ class Interp:
                 return Sym(("reversed", v.term))
             return Sym(("slice", term_of(v)))
         idx = self.eval(sl, fr)
+        if isinstance(idx, BoolF) and isinstance(v, (Tup, DictV, Coll)):
+            # a two-way table selected by a condition: `("objects", "subjects")[flag]`, `{True: a, False: b}[flag]`
+            return self.mk_alt([(idx.f, self._index_const(v, True, node)), (f_not(idx.f), self._index_const(v, False, node))])
+        if isinstance(idx, Alt) and all(isinstance(o, Const) for _g, o in idx.options) and isinstance(v, (Tup, DictV, Coll)):
+            return self.mk_alt([(g, self._index_const(v, o.value, node)) for g, o in idx.options])
         if isinstance(v, Tup) and isinstance(idx, Const) and isinstance(idx.value, int) and -len(v.items) <= idx.value < len(v.items):
             return v.items[idx.value]
         if isinstance(v, DictV):
@@ -883,6 +891,16 @@ class Interp:
                 return Sym(("attr", v.term[1], ("dyn", ti)))
             return Sym(("index", v.term, ti))
         return Sym(("index", term_of(v), term_of(idx)))
+
+    def _index_const(self, v: Val, key: object, node: ast.AST) -> Val:
+        """`v[key]` for a concrete key of a modelled tuple / list / dict."""
+        if isinstance(v, DictV):
+            hits = [x for k, x, g in v.entries if isinstance(k, Const) and k.value == key and type(k.value) is type(key) and g == TRUE]
+            return hits[-1] if hits else Sym(("index", term_of(v), ("const", repr(key))))
+        items = list(v.items) if isinstance(v, Tup) else [x for x, g in v.entries if g == TRUE] if all(g == TRUE for _x, g in v.entries) else []  # type: ignore[union-attr]
+        if isinstance(key, (bool, int)) and -len(items) <= int(key) < len(items):
+            return items[int(key)]
+        return Sym(("index", term_of(v), ("const", repr(key))))
 
     # ------------------------------------------------------------------ attributes
     def getattr(self, v: Val, attr: str, node: ast.AST | None, fr: Frame | None) -> Val:
